@@ -350,6 +350,52 @@ m("C04","pol-cut-from-storage-cost","x/storage/keeper/msg_server_buy_storage.go"
 m("C04","postfile-gauge-funded-differs","x/storage/keeper/msg_server_post_file.go",
   'err = k.bankKeeper.SendCoinsFromModuleToAccount(ctx, types.ModuleName, acc, spcTokens)','err = k.bankKeeper.SendCoinsFromModuleToAccount(ctx, types.ModuleName, acc, sdk.NewCoins(toPay))',"C04/R2","storage.MsgPostFile:gauge-funded=recorded")
 
+# ---- C13
+m("C13","emission-unclamped","x/jklmint/utils/mint.go",
+  """	if mint < 0 { // the emission never goes below zero
+		return 0
+	}
+	return mint""","""	return mint""","C13/R3","negative-emission","inverse of fix F6")
+m("C13","record-after-distribution","x/jklmint/keeper/mint.go",
+  """	// record the emission as soon as it is minted: the next block's emission is derived from it
+	k.SetMintedBlock(ctx, types.MintedBlock{
+		Height: ctx.BlockHeight(),
+		Minted: newMintForBlock,
+		Denom:  "ujkl",
+	})
+
+	err = k.mintStaker(ctx, mintTokens, denom, params)
+	if err != nil {
+		ctx.Logger().Error(err.Error())
+		return
+	}
+""","""	err = k.mintStaker(ctx, mintTokens, denom, params)
+	if err != nil {
+		ctx.Logger().Error(err.Error())
+		return
+	}
+
+	k.SetMintedBlock(ctx, types.MintedBlock{
+		Height: ctx.BlockHeight(),
+		Minted: newMintForBlock,
+		Denom:  "ujkl",
+	})
+""","C13/R5","mint-without-record","inverse of fix F12")
+m("C13","record-params-value","x/jklmint/keeper/mint.go",
+  'Minted: newMintForBlock,','Minted: params.TokensPerBlock,',"C13/R1","recorded=minted")
+m("C13","previous-key-current-height","x/jklmint/keeper/mint.go",
+  'minted, found := k.GetMintedBlock(ctx, ctx.BlockHeight()-1)\n\tif found {\n\t\tmintedNum = minted.Minted\n\t}\n\tvar bpy','minted, found := k.GetMintedBlock(ctx, ctx.BlockHeight())\n\tif found {\n\t\tmintedNum = minted.Minted\n\t}\n\tvar bpy',"C13/R6","previous-key=height-1")
+m("C13","devgrants-uses-staker-ratio","x/jklmint/keeper/mint.go",
+  'devGrantRatio := sdk.NewDec(params.DevGrantsRatio).QuoInt64(100)','devGrantRatio := sdk.NewDec(params.StakerRatio).QuoInt64(100)',"C13/R4","split:dev-grants")
+m("C13","recurrence-adds","x/jklmint/utils/mint.go",
+  'mint := lastBlockTokens.Sub(decrease.Quo(blockPerYearDec)).TruncateInt64()','mint := lastBlockTokens.Add(decrease.Quo(blockPerYearDec)).TruncateInt64()',"C13/R2","recurrence:shape")
+m("C13","split-base-from-params","x/jklmint/keeper/mint.go",
+  'err = k.mintDevGrants(ctx, mintTokens, denom, params)','err = k.mintDevGrants(ctx, params.TokensPerBlock, denom, params)',"C13/R1","split-base")
+m("C13","stipend-to-dev-account","x/jklmint/keeper/mint.go",
+  'err := k.send(ctx, denom, provTokens, params.StorageStipendAddress)','err := k.send(ctx, denom, provTokens, params.MintDenom)',"C13/R4","split:")
+m("C13","mint-other-amount","x/jklmint/keeper/mint.go",
+  'totalCoin := sdk.NewInt64Coin(denom, mintTokens)','totalCoin := sdk.NewInt64Coin(denom, mintedNum)',"C13/R1","minted=emission")
+
 for x in M:
     d = os.path.join(os.path.dirname(os.path.abspath(__file__)), x["property"])
     os.makedirs(d, exist_ok=True)
